@@ -53,6 +53,8 @@ type c06Nest struct {
 	Ports bool `json:"patterns_with_port"`
 	// Org adds a second domain (*.example.org, *.h0.example.org)
 	Org bool `json:"second_domain"`
+	// ACL adds an access rule on a route of the general pattern (*.example.com/acl denies 192.168.0.0/16)
+	ACL bool `json:"general_pattern_has_access_rule"`
 }
 
 type c06Leaf struct {
@@ -115,6 +117,9 @@ func c06TableText(sc *c06Scenario, v int) string {
 			tag = "root"
 		}
 		fmt.Fprintf(&b, "route add x%dh%d%s x%d.h%d.example.com%s http://x%dh%d%s-v%d:80/\n", l.K, l.I, tag, l.K, l.I, l.Path, l.K, l.I, tag, v)
+	}
+	if sc.Nest.ACL {
+		fmt.Fprintf(&b, "route add gacl *.example.com/acl http://gacl-v%d:80/ opts \"deny=ip:192.168.0.0/16\"\n", v)
 	}
 	if sc.Nest.Ports {
 		fmt.Fprintf(&b, "route add genp *.example.com:8443/ http://genp-v%d:80/\n", v)
@@ -188,13 +193,14 @@ func c06Gen(g *simcore.Tape, thorough bool) *c06Scenario {
 	}
 	sc.Nest.Ports = g.Chance(30)
 	sc.Nest.Org = g.Chance(40)
+	sc.Nest.ACL = g.Chance(40)
 
 	kinds := []string{"w", "w", "e", "rd", "rd", "glob", "glob", "rh", "acl", "none", "rhost", "rhost", "rhp", "nest", "nest", "nest", "nest"}
 	// hot mode: every task hammers one multi-target route so that the ring wraps under contention, or one family of
 	// hosts so that the lookups walk their candidate lists side by side
 	hot := ""
-	if g.Chance(45) {
-		hot = simcore.Pick(g, []string{"e", "w", "rhost", "rd", "glob", "glob", "nest", "nest", "nest"})
+	if g.Chance(50) {
+		hot = simcore.Pick(g, []string{"e", "w", "rhost", "rd", "glob", "e", "nest", "nest", "nest", "acl"})
 	}
 	gen := func(hot string) c06Req {
 		rq := c06Req{Kind: simcore.Pick(g, kinds), Remote: "10.1.2.3:4000"}
@@ -234,6 +240,9 @@ func c06Gen(g *simcore.Tape, thorough bool) *c06Scenario {
 				}
 			}
 			rq.Path = simcore.Pick(g, []string{"/other", "/", "/api/a", "/api/v2/b", "/static/s", "/w", "/e/x", "/rd/p0", "/acl", "/zzz/q"})
+			if rq.Path == "/acl" && g.Bool() {
+				rq.Remote = "192.168.0.9:555"
+			}
 		case "rh":
 			rq.Host = "old.example.com"
 			rq.Path = fmt.Sprintf("/q%d", g.Intn(5))
@@ -250,6 +259,9 @@ func c06Gen(g *simcore.Tape, thorough bool) *c06Scenario {
 			rq.Path = "/acl"
 			if g.Bool() {
 				rq.Remote = "192.168.0.9:555"
+			}
+			if sc.Nest.ACL && g.Chance(40) {
+				rq.Host = fmt.Sprintf("y%d.example.com", g.Intn(2))
 			}
 		case "none":
 			rq.Path = "/nothing"
@@ -277,8 +289,10 @@ func c06Gen(g *simcore.Tape, thorough bool) *c06Scenario {
 	// which functions have live yield sites: 0 every statement of route, proxy and main; 1 only the walk over the
 	// candidate hosts (Table.Lookup, Table.lookup, the picker, the Lookup closure): collecting the candidates, the
 	// glob cache, building a redirect are single steps; 2 route without the host-normalising helpers and the glob
-	// cache; 3 the handler (ServeHTTP, the Lookup closure, Table.Lookup): a whole route lookup per host is a step
-	sc.Gran = []int{0, 1, 1, 2, 3}[g.Intn(5)]
+	// cache; 3 the handler (ServeHTTP, the Lookup closure, Table.Lookup): a whole route lookup per host is a step;
+	// 4 only the pickers (everything else of a request is one step: the tasks meet inside the load balancing);
+	// 5 only the glob cache and the collection of the candidates
+	sc.Gran = []int{0, 1, 2, 3, 4, 5, 0, 1}[g.Intn(8)]
 	sc.NoGlob = g.Chance(10)
 	sc.Writer = g.Chance(30)
 	sc.BadHost = g.Chance(25)
@@ -442,6 +456,10 @@ func runC06(r *simcore.Run) {
 		d.Sim.Activate("route", "-route:*GlobCache", "-route:ReverseHostPort", "-route:sortHostsReverseHostPort", "-route:normalizeHost")
 	case 3:
 		d.Sim.Activate("proxy:*HTTPProxy.ServeHTTP", "main:newHTTPProxy.func", "route:Table.Lookup")
+	case 4:
+		d.Sim.Activate("route:rrPicker", "route:rndPicker")
+	case 5:
+		d.Sim.Activate("route:*GlobCache", "route:Table.matchingHosts")
 	default:
 		d.Sim.Activate("route", "proxy", "main")
 	}
